@@ -69,6 +69,17 @@ C16OK(rec) == (rec.op \in {"reserve", "resize", "shrink"} /\ rec.fail) =>
                  /\ C09OK(rec)
                  /\ rec.out = "ok" => (ToSt(rec.post).count = (IF rec.op = "resize" THEN rec.t.n ELSE ToSt(rec.pre).count))
                  /\ (rec.out = "ok" /\ \E k \in 1..Len(rec.ev) : rec.ev[k][1] = "allocfail") => ToSt(rec.post) = ToSt(rec.pre)
+ModelTerms == {[k |-> "n", n |-> x] : x \in 0..Recs[1].maxn} \cup {[k |-> "max", n |-> x] : x \in 0..1}
+              \cup {[k |-> "maxdiv", n |-> x] : x \in (IF Esz > 1 THEN {-1, 0, 1} ELSE {-1, 0})}
+              \cup {[k |-> "pow", n |-> e] : e \in 61..63}
+ModelOps(rec) ==
+    {[op |-> o, t |-> t, fail |-> f] : o \in {"reserve", "resize"}, t \in ModelTerms, f \in BOOLEAN}
+    \cup {[op |-> "shrink", fail |-> f] : f \in BOOLEAN} \cup {[op |-> "clear"], [op |-> "sort"], [op |-> "reverse"]}
+\* In a closure the records of one state are contiguous (field g on the first of them = how many).  Every transition
+\* the L0 machine can take from that state (ModelOps) must be among the operations the driver applied to the real
+\* code there (the driver applies read-only probes on top).  Recs[1] is the trace header (the scope).
+Applied(k, o) == \E j \in k..(k + Recs[k].g - 1) : Recs[j].op = o.op /\ \A f \in DOMAIN o : Recs[j][f] = o[f]
+OpsOK(k) == LET rec == Recs[k] IN ~Sane(rec.pre) \/ \A o \in ModelOps(rec) : Applied(k, o)
 VARIABLE i
 Judge(rec) ==
     /\ (IF Level # 2 \/ C16OK(rec) THEN TRUE ELSE PrintT(<<"L2FAIL", "C16", rec.id>>))
@@ -76,6 +87,7 @@ Judge(rec) ==
     /\ (IF Level # 1 \/ StepOK(rec) THEN TRUE ELSE PrintT(<<"L1DRIFT", "vec", rec.id>>))
 TInit == i = 1
 TNext == i < Len(Recs) /\ i' = i + 1 /\ Judge(Recs[i + 1])
+         /\ (IF Level # 1 \/ Recs[i + 1].g = 0 \/ OpsOK(i + 1) THEN TRUE ELSE PrintT(<<"OPSDIFF", "vec", Recs[i + 1].id>>))
 TSpec == TInit /\ [][TNext]_i
 Done == i = Len(Recs) => PrintT(<<"TRACE-END", i>>)
 =============================================================================
